@@ -25,6 +25,8 @@ CONTEXTS = {
     'obj-method': 'const o = {{ m() {{ return @; }}, p: @ }};', 'default-param': 'function g(a = @) {{ return a; }}', 'default-param-arrow': 'const g = (a = @) => a;', 'default-param-arrow-block': 'const g = (a = @) => {{ return a; }};',
     'block': '{{ const r = @; }}', 'nested-block': 'function g() {{ if (v1) {{ const r = @; return r; }} }}', 'for': 'for (let i = 0; i < 2; i++) {{ f1(@); }}', 'for-of': 'for (const x of [@]) {{ f1(x); }}',
     'while': 'while (v1) {{ v2 = @; }}', 'try': 'try {{ f1(@); }} catch (e) {{ f1(@); }} finally {{ f1(@); }}', 'switch': 'switch (v1) {{ case 1: f1(@); break; default: f1(@); }}', 'label': 'lbl: {{ f1(@); }}',
+    'for-bare': 'for (const x of [1, 2]) f1(@);', 'while-bare': 'while (v1) v2 = @;', 'for-bare-assign': 'for (let i = 0; i < 2; i++) v1 = <Foo>{{v1}}</Foo>;', 'do-bare': 'do f1(@); while (v1);',
+    'for-in-bare-if': 'for (const k in o1) if (k) f1(@);', 'for-head': 'for (let q = @; v1; ) {{ f1(q); }}', 'nested-bare': 'function g() {{ for (;;) for (const x of [1]) return @; }}',
     'tpl': 'const t = `a${{@}}b`;', 'seq': 'const q = (f1(), @);', 'assign-self': 'v1 = <Foo>{{v1}}</Foo>;', 'assign-in-fn': 'function g() {{ v1 = <Foo>{{v1}}</Foo>; }}', 'assign-arrow': 'const g = () => (v1 = <Foo>{{v1}}</Foo>);',
     'assign-param-arrow': 'const g = (p1) => p1 = <Foo>{{p1}}</Foo>;', 'assign-param-fn': 'function g(p1) {{ p1 = <Foo>{{p1}}</Foo>; return p1; }}',
     'assign-local': 'function g() {{ let l1 = 0; l1 = <Foo>{{l1}}</Foo>; return l1; }}', 'assign-param-arrow-block': 'const g = (p1) => {{ p1 = <Foo>{{p1}}</Foo>; return p1; }};',
@@ -41,7 +43,9 @@ SIBLINGS = {'none': ('', ''), 'pre-temp': ('const p = <Foo>{{f1()}}</Foo>;\n', '
             'post-empty-fn': ('', '\nfunction noop() {{}}'), 'post-empty-block': ('', '\n{{}}'), 'post-empty-method': ('', '\nclass E {{ m() {{}} }}'),
             'post-empty-catch': ('', '\ntry {{ f1(); }} catch {{}}'), 'post-empty-if': ('', '\nif (v1) {{}}'), 'pre-empty-fn': ('function noop() {{}}\n', ''), 'post-empty-arrow': ('', '\nconst noop = () => {{}};'),
             'user-names': ('const _slot = 1, _createVNode = 2; function _isSlot() {{}}\n', ''),
-            'user-snapshot-names': ('let _v1 = v1, _v3 = 7, _p1 = 8, _l1 = 9;\n', '\nf1(_v1, _v3, _p1, _l1);'), 'user-snapshot-global': ('', '\nf1(_v1, _slot, _v3);'), 'pre-assign': ('v1 = 3;\n', ''), 'post-fn': ('', '\nfunction r() {{ return <Foo>{{f1()}}</Foo>; }}')}
+            'user-snapshot-names': ('let _v1 = v1, _v3 = 7, _p1 = 8, _l1 = 9;\n', '\nf1(_v1, _v3, _p1, _l1);'), 'user-snapshot-global': ('', '\nf1(_v1, _slot, _v3);'), 'pre-assign': ('v1 = 3;\n', ''),
+            # string-literal statements that are not a directive prologue (they follow other statements)
+            'post-string': ('', "\n'use client';\nconst r = <Foo>{{f1(v2)}}</Foo>;"), 'pre-string': ("'use x';\n", ''), 'around-strings': ("'a';\n", "\n'b';"), 'post-fn': ('', '\nfunction r() {{ return <Foo>{{f1()}}</Foo>; }}')}
 
 
 def make_skeleton(spec):
@@ -278,6 +282,8 @@ def jobs(tier):
         # with a pragma in force createVNode is not imported: every other helper must still be
         out.append({'ctx': 'module', 'jsx': j, 'pragma': 'h'})
         out.append({'ctx': 'fn-body', 'jsx': j, 'pragma': 'h'})
+    # two uses of the listener-object helper in one module: both refer to the one import
+    out += [{'ctx': 'two-fns', 'jsx': 'on'}, {'ctx': 'arrow-sibling', 'jsx': 'onC'}, {'ctx': 'obj-method', 'jsx': 'on2'}, {'ctx': 'try', 'jsx': 'on'}]
     seen = set(); res = []
     for s in out:
         k = json.dumps(s, sort_keys=True)
